@@ -29,7 +29,8 @@
        with a push or a variable read.  Blocks are stated to start at a statement boundary (Fresh: the scope's part of
        the operand stack is empty, or holds the nil the calling operator left there).  A whole program whose top-level
        statements are of that relation, loaded as the root frame, is run by execute_do to result `empty` with exactly
-       its value (VM/SimProg.v, C02_program_runs, C02_program_ref).
+       its value (VM/SimProg.v, C02_program_runs, C02_program_ref), also when the root scope itself is left by exitWith
+       (C02_program_runs_with_exit).
        NOT covered by the simulation: switch,
        exitWith inside an operand, breakOut, try / catch / throw, waitUntil, nil operands, a while loop with an empty
        body or a non-boolean condition - for these the
@@ -563,4 +564,36 @@ Proof.
   split; [unfold Good; split; [reflexivity|cbn; auto 10]|]. split; [reflexivity|]. split.
   - split; [|reflexivity]. cbn. constructor; [|constructor]. split; [intros k; reflexivity|split; reflexivity].
   - split; [cbn; lia|reflexivity].
+Qed.
+
+(* the same for a program whose ROOT scope may be left by `if c exitWith {..}` (the usual `if (..) exitWith {..};` at the top of a
+   script): the handler runs as a frame of its own, the abandoned root frame completes with the handler's value and drops what
+   it still held, nothing behind the exitWith statement runs; the reference side is C02_ref_runs_blocks_with_exit *)
+Theorem C02_program_runs_with_exit : forall s p out s' r c f,
+  zblock s RNone p out s' ->
+  AtM s RNone r c f [] [] -> f_code f = compile_block p -> f_pos f = 0 -> f_exit f = None ->
+  exists rf cf,
+    Steps r rf /\ cur rf = Some cf /\ c_frames cf = [] /\ c_values cf = root_value out /\
+    r_nss rf = mnss (st_nss s') /\
+    do_iter rf = Ok (Return REmpty rf) /\
+    forall fuel n x r', execute_do fuel r n = Ok (x, r') ->
+      (x = REmpty /\ r' = rf) \/ (x = ROk /\ Steps r r' /\ Steps r' rf).
+Proof. exact program_run_exit. Qed.
+Print Assumptions C02_program_runs_with_exit.
+(* a derivation:  x = 1; if (x > 0) exitWith { x + 10 }; x = 99; 0   - the script ends with 11, `x = 99` never runs *)
+Definition ex_root_exit : list stmt :=
+  [SAssign "x" (ENum 1);
+   SExpr (EBinary "exitWith" (EUnary "if" (EBinary ">" (EVar "x") (ENum 0))) (ECode [SExpr (EBinary "+" (EVar "x") (ENum 10))]));
+   SAssign "x" (ENum 99); SExpr (ENum 0)].
+Example root_exit_inhabited : exists s', zblock init_state RNone ex_root_exit (BExit (RNum 11)) s' /\ glob_of s' "x" = Some (RNum 1) /\
+  root_value (BExit (RNum 11)) = [VNum 11].
+Proof.
+  eexists. split.
+  { eapply ZBCons; [eapply ZSAssign; [discriminate|eapply ZPure; eapply PNum|split; discriminate]|].
+    change (BExit (RNum 11)) with (BExit (val_of (BNorm (RNum 11)))).
+    eapply ZBExit; [reflexivity| | |].
+    - eapply ZIf; [reflexivity|intros ? ?; discriminate|]. eapply ZPure. eapply PBin; [eapply PVarG; reflexivity|eapply PNum|reflexivity].
+    - eapply ZCode.
+    - eapply ZBLast. eapply ZSExprV. eapply ZPure. eapply PBin; [eapply PVarG; reflexivity|eapply PNum|reflexivity]. }
+  split; reflexivity.
 Qed.
